@@ -495,6 +495,147 @@ def check_precision_case(ctx, case):
     return True
 
 
+# ---------------------------------------------------------------------------------------------------
+# end to end through the REAL adapter: PulserData(sequence, config).lindblad_ops / SequenceData.lindblad_ops of real
+# Rydberg and XY sequences vs pulser's own LindbladData (pd.hamiltonian.lindblad_data), relabelled to emulator order
+def adapter_sequence(xy):
+    import pulser
+
+    reg = pulser.Register.rectangle(1, 2, spacing=8.0, prefix="q")
+    seq = pulser.Sequence(reg, pulser.MockDevice)
+    seq.declare_channel("ch0", "mw_global" if xy else "rydberg_global")
+    seq.add(pulser.Pulse.ConstantPulse(40, 1.0, 0.0, 0.0), "ch0")
+    return seq
+
+
+def gen_adapter_case(rng, fixed=None):
+    """integer coefficients (exact sqrt) and Gaussian-integer operators that are NOT invariant under the r/g swap"""
+    dim = rng.choice([2, 3])
+    ising = rng.random() < 0.7
+    c = base_case(dim, ising)
+    pool = [unit_op(dim, 1, 0), unit_op(dim, 0, 0), unit_op(dim, 0, 1), rand_gauss_op(rng, dim), rand_gauss_op(rng, dim)]
+    if dim == 3:
+        blk = rand_gauss_op(rng, 3)
+        for a in range(3):      # block-diagonal: generic on (r,g), only a diagonal entry on x (not affected by F-12)
+            for b in range(3):
+                if (a == 2) != (b == 2):
+                    blk[a][b] = (0, 0)
+        pool += [blk, blk, unit_op(3, 2, 0), unit_op(3, 1, 2)]
+    k = rng.randint(1, 3)
+    eff = [(rng.randint(1, 5), rng.choice(pool)) for _ in range(k)]
+    set_exact(c, relax=rng.choice([0, 1, 2]) if ising else 0, deph=rng.choice([0, 0, 1, 3]),
+              depol=rng.choice([0, 0, 2]), eff=eff)
+    if fixed:
+        c.update(fixed)
+    c["tag"] = "adapter"
+    c["kind"] = "adapter"
+    return c
+
+
+def lindblad_data_matrices(ld, eig, dim):
+    """pulser's LindbladData -> list of dim x dim numpy matrices in PULSER order"""
+    import numpy as np
+
+    def sigma(name):
+        a, b = name[len("sigma_"):]
+        m = np.zeros((dim, dim), dtype=complex)
+        m[eig.index(a), eig.index(b)] = 1.0
+        return m
+
+    out = []
+    for coeff, op in ld.local_collapse_ops:
+        if isinstance(op, str) and op in ld.depolarizing_pauli_2ds:
+            out.append(("depolarizing", float(coeff) * sum(complex(c) * sigma(n) for c, n in ld.depolarizing_pauli_2ds[op])))
+        elif isinstance(op, str):
+            out.append(("named", float(coeff) * sigma(op)))
+        else:
+            out.append(("eff_noise", float(coeff) * np.array(op, dtype=complex)))
+    return out
+
+
+def check_adapter_case(ctx, case):
+    import numpy as np
+    from pulser.backend import EmulationConfig, BitStrings
+    from emu_base.pulser_adapter import PulserData
+
+    dim, ising = case["dim"], case["ising"]
+    nm = make_noise_model(case)
+    cfg = EmulationConfig(observables=[BitStrings(evaluation_times=[1.0])], noise_model=nm, interaction_cutoff=0.0)
+    pd = PulserData(sequence=adapter_sequence(not ising), config=cfg, dt=10)
+    sds = list(pd.get_sequences())
+    eig = list(pd.hamiltonian.basis_data.eigenbasis)
+    emu_order = EMU_ORDER[ising][:dim]
+    if sorted(eig) != sorted(emu_order) or pd.dim != dim:
+        ctx.violation(f"adapter: eigenbasis {eig} / dim {pd.dim} for a dim-{dim} {'ising' if ising else 'XY'} model",
+                      {"case": case, "finding_key": "adapter-basis", "kind": "adapter"})
+        return
+    perm = [eig.index(l) for l in emu_order]
+    ref = lindblad_data_matrices(pd.hamiltonian.lindblad_data, eig, dim)
+    P = [m[np.ix_(perm, perm)] for _, m in ref]
+
+    def flip(m):
+        f = m.copy()
+        f[:2, :2] = m[:2, :2][::-1, ::-1]
+        return f
+
+    P_f12 = [flip(m) if kind == "eff_noise" else m[np.ix_(perm, perm)] for kind, m in ref]
+
+    def total(ops, rho):
+        return sum((dissip2(np.array(o, dtype=complex), rho) for o in ops), start=np.zeros((dim, dim), dtype=complex))
+
+    for label, ops in (("PulserData.lindblad_ops", pd.lindblad_ops), ("SequenceData.lindblad_ops", sds[0].lindblad_ops)):
+        E = [np.array(o.tolist(), dtype=complex) for o in ops]
+        ok = okf = True
+        where = None
+        for a in range(dim):
+            for b in range(dim):
+                rho = np.zeros((dim, dim), dtype=complex)
+                rho[a, b] = 1.0
+                d = total(E, rho)
+                if not np.array_equal(d, total(P, rho)):
+                    ok, where = False, where or (emu_order[a], emu_order[b])
+                if not np.array_equal(d, total(P_f12, rho)):
+                    okf = False
+        if ok:
+            continue
+        is_f12 = dim == 3 and ising and okf
+        ctx.violation(
+            f"{label} of a real {'Rydberg' if ising else 'XY'} sequence is not the process pulser's LindbladData defines: "
+            f"total dissipator differs on rho=|{where[0]}><{where[1]}| (emulator order {emu_order}, pulser order {eig}); "
+            f"emulator ops {[e.tolist() for e in E]}",
+            {"case": case, "finding_key": "eff-noise-3x3" if is_f12 else "eff-noise-basis-not-rebased-through-adapter",
+             "kind": "adapter"})
+        return
+
+
+def check_sv_decay(ctx):
+    """emu-sv dynamics: decay r->g given as relaxation_rate and as eff_noise |g><r| (pulser order (r,g): entry [1][0])
+    must both give P(r) = exp(-rate * t)"""
+    import numpy as np
+    import pulser
+    from emu_sv import DensityMatrix, Occupation, StateVector, SVBackend, SVConfig
+
+    reg = pulser.Register.rectangle(1, 1, spacing=1e4, prefix="q")
+    seq = pulser.Sequence(reg, pulser.MockDevice)
+    seq.declare_channel("ch0", "rydberg_global")
+    seq.add(pulser.Pulse.ConstantPulse(1000, 0.0, 0.0, 0.0), "ch0")
+    out = {}
+    for name, nm in (("relaxation", pulser.NoiseModel(relaxation_rate=1.0)),
+                     ("eff_noise", pulser.NoiseModel(eff_noise_rates=[1.0],
+                                                     eff_noise_opers=[np.array([[0, 0], [1, 0]], dtype=complex)]))):
+        initial = DensityMatrix.from_state_vector(
+            StateVector.from_state_amplitudes(eigenstates=("r", "g"), amplitudes={"r": 1.0}))
+        cfg = SVConfig(initial_state=initial, dt=100, observables=[Occupation(evaluation_times=[1.0])], noise_model=nm,
+                       gpu=False, log_level=1000)
+        out[name] = float(SVBackend(seq, config=cfg).run().occupation[-1][0])
+    ctx.count_case({"sv_decay": out}, True)
+    want = math.exp(-1.0)
+    if abs(out["relaxation"] - out["eff_noise"]) > 1e-6 or abs(out["eff_noise"] - want) > 1e-3:
+        ctx.violation(f"emu-sv: P(r) after 1 us of decay at rate 1/us: relaxation channel {out['relaxation']:.6f}, "
+                      f"eff_noise |g><r| {out['eff_noise']:.6f}, exact exp(-1) = {want:.6f}",
+                      {"case": {"sv_decay": out}, "finding_key": "eff-noise-decay-dynamics-sv", "kind": "sv_decay"})
+
+
 def corpus_cases():
     p = common.VERIF / "corpus" / "C24.json"
     return json.loads(p.read_text()) if p.exists() else []
@@ -744,6 +885,35 @@ def run(ctx):
             import traceback
             p_ok, p_detail = False, f"case={pc}\n{traceback.format_exc()}"
     ctx.obligation("precision-stream ran on generic complex128 operators and rates", p_ok, p_detail, kind="correspondence")
+    # end to end through the real adapter (PulserData / SequenceData), Rydberg and XY, dims 2 and 3
+    a_ok, a_detail = True, ""
+    fixed = [  # |g><r|, |r><r|, generic 2x2 through a Rydberg sequence; 3x3 with leakage; XY
+        {"dim": 2, "ising": True, "with_leakage": False}, {"dim": 2, "ising": False, "with_leakage": False},
+        {"dim": 3, "ising": True, "with_leakage": True}, {"dim": 3, "ising": False, "with_leakage": True}]
+    acases = []
+    for f in fixed:
+        c0 = gen_adapter_case(rng)
+        c0 = set_exact(base_case(f["dim"], f["ising"]), relax=1 if f["ising"] else 0, deph=1,
+                       eff=[(2, unit_op(f["dim"], 1, 0)), (3, unit_op(f["dim"], 0, 0)), (1, rand_gauss_op(rng, 2) if f["dim"] == 2
+                            else [[(1, 2), (0, -1), (0, 0)], [(3, 0), (-2, 1), (0, 0)], [(0, 0), (0, 0), (1, 1)]])])
+        c0["tag"], c0["kind"] = "adapter", "adapter"
+        acases.append(c0)
+    acases += [gen_adapter_case(rng) for _ in range(ctx.n(30, 300))]
+    for ac in acases:
+        try:
+            check_adapter_case(ctx, ac)
+            ctx.count_case({"adapter": {k: ac[k] for k in ("dim", "ising", "eff_rates", "eff_ops", "relaxation_rate",
+                                                           "dephasing_rate", "depolarizing_rate")}}, True)
+        except Exception:  # noqa: BLE001
+            import traceback
+            a_ok, a_detail = False, f"case={ac}\n{traceback.format_exc()}"
+    try:
+        check_sv_decay(ctx)
+    except Exception:  # noqa: BLE001
+        import traceback
+        a_ok, a_detail = False, traceback.format_exc()
+    ctx.obligation("end-to-end:PulserData/SequenceData.lindblad_ops of real Rydberg and XY sequences compared with pulser's "
+                   "LindbladData; emu-sv decay cross-check", a_ok, a_detail, kind="correspondence")
     ctx.rule = ("corpus + every elementary E_ij (2x2, 3x3, ising, XY) + every Lindbladian kind alone/combined + multi-operator "
                 "eff_noise models (2-5 pairwise distinct operators; an exact zero rate at every position, equal, distinct, all-zero "
                 "rate vectors) + random real "
@@ -766,6 +936,12 @@ def replay(ctx, path):
     c = rp["case"]
     if rp.get("kind") == "precision":
         print("replay precision case:", check_precision_case(ctx, c))
+        return
+    if rp.get("kind") == "adapter":
+        check_adapter_case(ctx, c)
+        return
+    if rp.get("kind") == "sv_decay":
+        check_sv_decay(ctx)
         return
     r = impl_run(c)
     ref = pulser_reference(c) if c["real"] else None
